@@ -427,6 +427,11 @@ def overflow_probe(case):
         junk = bytes((5 * i + 11) % 251 for i in range(ln))
         already, writers = box.fss.remote_allocate_buckets(si, renew, cancel, [0], size, L.Canary("c0"))
         w = writers[0]
+        from allmydata.storage.immutable import ShareFile
+
+        def lease_view(path):
+            return [(l.owner_num, l.get_expiration_time(), l.is_renew_secret(renew), l.is_cancel_secret(cancel)) for l in ShareFile(path).get_leases()]
+        baseline = lease_view(box.incoming_path(si, 0))      # the uploader's lease as written at allocation
         if pre:
             w.remote_write(0, data[:pre])
         inside = max(0, min(size, off + ln) - off) if off < size else 0
@@ -452,12 +457,10 @@ def overflow_probe(case):
             obs["read_ok"] = got[:size] == data
         else:
             obs["read_len"] = None
-        from allmydata.storage.immutable import ShareFile
         try:
-            sf = ShareFile(box.final_path(si, 0))
-            leases = list(sf.get_leases())
+            leases = lease_view(box.final_path(si, 0))
             obs["leases"] = len(leases)
-            obs["lease_ok"] = len(leases) == 1 and leases[0].is_renew_secret(renew) and leases[0].owner_num == 1
+            obs["lease_ok"] = len(baseline) == 1 and baseline[0][2] and baseline[0][3] and leases == baseline
         except Exception as e:  # noqa
             obs["leases"] = "unreadable:" + L.exc_name(e)
             obs["lease_ok"] = False
